@@ -163,3 +163,255 @@ Proof.
   - rewrite Qred_correct, Ha. reflexivity.
   - rewrite Qred_correct. exact Hb.
 Qed.
+
+(* ================================================================ transport of the theorems
+   From here on nothing looks inside the generated definitions: everything follows from the three
+   equivalences above and from the theorems of Proofs/RefineP.v about the model. *)
+
+(* reading an equivalence from the generated side *)
+Lemma fres_eq_ret g r a b f : fres_eq g (lift r) -> g = FRet a b f ->
+  exists sh co sh' co', r = MOk sh co f /\ a = Some sh' /\ b = Some co' /\ sh' == sh /\ co' == co.
+Proof.
+  intros H E. subst g. destruct r as [sh co fl|]; cbn in H; [|contradiction].
+  destruct H as (Ha & Hb & Hf). destruct a as [a|]; [|contradiction]. destruct b as [b|]; [|contradiction].
+  cbn in Ha, Hb. subst fl. exists sh, co, a, b. repeat split; assumption.
+Qed.
+
+(* ... and from the model's side *)
+Lemma fres_eq_ok g sh co fl : fres_eq g (lift (MOk sh co fl)) ->
+  exists sh' co', g = FRet (Some sh') (Some co') fl /\ sh' == sh /\ co' == co.
+Proof.
+  intro H. destruct g as [a b f|]; cbn in H; [|contradiction].
+  destruct H as (Ha & Hb & Hf). destruct a as [a|]; [|contradiction]. destruct b as [b|]; [|contradiction].
+  cbn in Ha, Hb. subst f. exists a, b. repeat split; assumption.
+Qed.
+
+Lemma pres_eq_ok g d c k : pres_eq g (POk d c k) -> exists d' c', g = POk d' c' k /\ oq_eq d' d /\ oq_eq c' c.
+Proof.
+  intro H. destruct g as [d' c' k'| |]; cbn in H; try contradiction.
+  destruct H as (A & B & C). subst k'. exists d', c'. repeat split; assumption.
+Qed.
+
+Lemma pres_eq_ret g r d c k : pres_eq g r -> g = POk d c k -> exists d' c', r = POk d' c' k /\ oq_eq d d' /\ oq_eq c c'.
+Proof.
+  intros H E. subst g. destruct r as [d' c' k'| |]; cbn in H; try contradiction.
+  destruct H as (A & B & C). subst k'. exists d', c'. repeat split; assumption.
+Qed.
+
+Lemma oq_eq_some_r a q : oq_eq a (Some q) -> exists q', a = Some q' /\ q' == q.
+Proof. destruct a as [q'|]; cbn; [|contradiction]. intro H. exists q'. split; [reflexivity | exact H]. Qed.
+Lemma oq_eq_none_r a : oq_eq a None -> a = None.
+Proof. destruct a; cbn; [contradiction | reflexivity]. Qed.
+
+Lemma not_worse_wd k a a' b : a' == a -> not_worse k a b -> not_worse k a' b.
+Proof. intros E H. destruct k; cbn in *; rewrite E; exact H. Qed.
+
+Section GenMethods.
+  Variable K : consts.
+
+  (* every call of a generated method on a numeric centre cost returns numbers (no exception, no NaN):
+     a shift of at most half a sample and a cost that is not worse than the centre's *)
+  Lemma gen_method_props me m oc0 c1 oc2 d :
+    exists sh co fl, gmethod K me oc0 (Some c1) oc2 d m = FRet (Some sh) (Some co) fl
+      /\ Qabs sh <= 1 # 2 /\ not_worse (kind_of m) co c1.
+  Proof.
+    pose proof (gen_method_eq K me m oc0 c1 oc2 d) as H.
+    destruct (run_method K me m oc0 c1 oc2) as [sh co fl|] eqn:R.
+    2:{ exfalso. exact (run_method_total K me m oc0 c1 oc2 R). }
+    destruct (fres_eq_ok _ _ _ _ H) as (sh' & co' & E & Es & Ec).
+    exists sh', co', fl. split; [exact E|]. split.
+    - rewrite Es. exact (run_method_shift_half K me m oc0 c1 oc2 sh co fl R).
+    - apply (not_worse_wd _ co); [exact Ec|]. exact (run_method_not_worse K me m oc0 c1 oc2 sh co fl R).
+  Qed.
+
+  Lemma gen_method_ret me m oc0 c1 oc2 d a b f :
+    gmethod K me oc0 (Some c1) oc2 d m = FRet a b f ->
+    exists sh co, a = Some sh /\ b = Some co /\ Qabs sh <= 1 # 2 /\ not_worse (kind_of m) co c1.
+  Proof.
+    intro E. destruct (gen_method_props me m oc0 c1 oc2 d) as (sh & co & fl & E' & A & B).
+    rewrite E in E'. inversion E'. subst. exists sh, co. repeat split; assumption.
+  Qed.
+
+  Lemma gen_method_total me m oc0 c1 oc2 d : gmethod K me oc0 (Some c1) oc2 d m <> FRaise.
+  Proof.
+    destruct (gen_method_props me m oc0 c1 oc2 d) as (sh & co & fl & E & _). rewrite E. discriminate.
+  Qed.
+
+  (* the flag of a generated method: bit 3 as soon as a neighbour is NaN or the centre is not an
+     extremum (shift 0, the centre's cost), 0 otherwise *)
+  Lemma gen_method_stop me m oc0 c1 oc2 d :
+    (oc0 = None \/ oc2 = None
+     \/ exists c0 c2, oc0 = Some c0 /\ oc2 = Some c2 /\ ~ is_extremum (kind_of m) c0 c1 c2) ->
+    exists sh co, gmethod K me oc0 (Some c1) oc2 d m = FRet (Some sh) (Some co) (k_stopped K)
+                  /\ sh == 0 /\ co == c1.
+  Proof.
+    intro S. pose proof (gen_method_eq K me m oc0 c1 oc2 d) as H.
+    rewrite (run_method_stop K me m oc0 c1 oc2 S) in H.
+    destruct (fres_eq_ok _ _ _ _ H) as (sh' & co' & E & Es & Ec). exists sh', co'. repeat split; assumption.
+  Qed.
+
+  Lemma gen_method_go me m c0 c1 c2 d : is_extremum (kind_of m) c0 c1 c2 ->
+    exists sh co, gmethod K me (Some c0) (Some c1) (Some c2) d m = FRet (Some sh) (Some co) 0.
+  Proof.
+    intro X. destruct (run_method_go K me m c0 c1 c2 X) as (sh & co & R).
+    pose proof (gen_method_eq K me m (Some c0) c1 (Some c2) d) as H. rewrite R in H.
+    destruct (fres_eq_ok _ _ _ _ H) as (sh' & co' & E & _). exists sh', co'. exact E.
+  Qed.
+
+  (* the closed forms of the user guide, on the generated methods *)
+  Lemma gen_vfit_closed_form m c0 c1 c2 d :
+    is_extremum (kind_of m) c0 c1 c2 ->
+    (eps15 <= Qabs (vfit_slope (kind_of m) c0 c1 c2) ->
+       exists sh co, G.vfit K (Some c0) (Some c1) (Some c2) d m = FRet (Some sh) (Some co) 0
+                     /\ sh == vfit_x (kind_of m) c0 c1 c2 /\ co == vfit_y (kind_of m) c0 c1 c2)
+    /\ (Qabs (vfit_slope (kind_of m) c0 c1 c2) < eps15 ->
+        exists sh co, G.vfit K (Some c0) (Some c1) (Some c2) d m = FRet (Some sh) (Some co) 0
+                      /\ sh == 0 /\ co == c1).
+  Proof.
+    intro X. destruct (vfit_closed_form K m c0 c1 c2 X) as [A B].
+    pose proof (gen_vfit_eq K m (Some c0) c1 (Some c2) d) as H. split; intro L.
+    - destruct (A L) as (sh & co & R & Es & Ec). rewrite R in H.
+      destruct (fres_eq_ok _ _ _ _ H) as (sh' & co' & E & Es' & Ec'). exists sh', co'.
+      split; [exact E|]. split; [rewrite Es'; exact Es | rewrite Ec'; exact Ec].
+    - rewrite (B L) in H. destruct (fres_eq_ok _ _ _ _ H) as (sh' & co' & E & Es' & Ec').
+      exists sh', co'. repeat split; assumption.
+  Qed.
+
+  Lemma gen_quad_closed_form m c0 c1 c2 d :
+    is_extremum (kind_of m) c0 c1 c2 ->
+    (eps15 <= Qabs (quad_a c0 c1 c2) ->
+       exists sh co, G.quadratic K (Some c0) (Some c1) (Some c2) d m = FRet (Some sh) (Some co) 0
+                     /\ sh == quad_x c0 c1 c2 /\ co == quad_y c0 c1 c2)
+    /\ (Qabs (quad_a c0 c1 c2) < eps15 ->
+        exists sh co, G.quadratic K (Some c0) (Some c1) (Some c2) d m = FRet (Some sh) (Some co) 0
+                      /\ sh == 0 /\ co == c1).
+  Proof.
+    intro X. destruct (quad_closed_form K m c0 c1 c2 X) as [A B].
+    pose proof (gen_quadratic_eq K m (Some c0) c1 (Some c2) d) as H. split; intro L.
+    - destruct (A L) as (sh & co & R & Es & Ec). rewrite R in H.
+      destruct (fres_eq_ok _ _ _ _ H) as (sh' & co' & E & Es' & Ec'). exists sh', co'.
+      split; [exact E|]. split; [rewrite Es'; exact Es | rewrite Ec'; exact Ec].
+    - rewrite (B L) in H. destruct (fres_eq_ok _ _ _ _ H) as (sh' & co' & E & Es' & Ec').
+      exists sh', co'. repeat split; assumption.
+  Qed.
+End GenMethods.
+
+(* ---------------------------------------------------------------- one pixel, generated body *)
+
+Section GenPixel.
+  Variable K : consts.
+  Hypothesis KW : consts_wf K = true.
+  Variables (me : method) (m : measure) (dmin dmax : Q) (s : Z).
+  Hypothesis Hs : (0 < s)%Z.
+
+  (* the generated pixel body with the generated method of the configured class *)
+  Definition gstep (cv : list (option Q)) (disp : option Q) (mask : Z) : pres :=
+    G.loop_pixel K cv disp mask dmin dmax s m (gmethod K me).
+
+  Let step := loop_pixel K me m dmin dmax s.
+
+  Lemma gstep_eq cv disp mask : pres_eq (gstep cv disp mask) (step cv disp mask).
+  Proof. apply gen_loop_pixel_eq. exact Hs. Qed.
+
+  Lemma gen_pixel_invalid cv disp mask : ~ is_valid K mask ->
+    exists d', gstep cv disp mask = POk d' None mask /\ oq_eq d' disp.
+  Proof.
+    intro V. pose proof (gstep_eq cv disp mask) as H. unfold step in H.
+    rewrite (pixel_invalid K me m dmin dmax s cv disp mask V) in H.
+    destruct (pres_eq_ok _ _ _ _ H) as (d' & c' & E & A & B). apply oq_eq_none_r in B. subst c'.
+    exists d'. split; assumption.
+  Qed.
+
+  Lemma in_interval_wd d d' : d' == d -> in_interval dmin dmax d -> in_interval dmin dmax d'.
+  Proof. unfold in_interval. intros E [A B]. rewrite E. split; assumption. Qed.
+
+  Lemma gen_pixel_props cv d mask r :
+    is_valid K mask -> cv_fits dmin dmax s cv -> in_interval dmin dmax d ->
+    gstep cv (Some d) mask = r ->
+    exists d' c' mask', r = POk (Some d') c' mask'
+      /\ in_interval dmin dmax d'
+      /\ Qabs (d' - d) * inject_Z s <= 1 # 2
+      /\ (mask' = mask \/ mask' = Z.lor mask bit3)
+      /\ (forall c1, cost_at cv (sample_index dmin s d) = Some c1 ->
+            exists co, c' = Some co /\ not_worse (kind_of m) co c1)
+      /\ (cost_at cv (sample_index dmin s d) = None -> d' == d /\ c' = None /\ mask' = mask).
+  Proof.
+    intros V F I R. pose proof (gstep_eq cv (Some d) mask) as H. rewrite R in H.
+    destruct (pixel_props K KW me m dmin dmax s Hs cv d mask _ V F I eq_refl)
+      as (d1 & c1' & k1 & E1 & I1 & A1 & M1 & C1 & N1).
+    unfold step in H. rewrite E1 in H.
+    destruct (pres_eq_ok _ _ _ _ H) as (od & oc & E & Ed & Ec).
+    destruct (oq_eq_some_r _ _ Ed) as (d' & -> & Edd).
+    exists d', oc, k1. split; [exact E|]. split; [exact (in_interval_wd _ _ Edd I1)|].
+    split; [rewrite Edd; exact A1|]. split; [exact M1|]. split.
+    - intros c1 EC. destruct (C1 c1 EC) as (co & -> & NW).
+      destruct (oq_eq_some_r _ _ Ec) as (co' & -> & Eco). exists co'. split; [reflexivity|].
+      exact (not_worse_wd _ _ _ _ Eco NW).
+    - intro EC. destruct (N1 EC) as (X & -> & Y). split; [rewrite Edd, X; reflexivity|].
+      split; [exact (oq_eq_none_r _ Ec) | exact Y].
+  Qed.
+
+  Lemma gen_pixel_total cv disp mask :
+    cv_fits dmin dmax s cv -> (is_valid K mask -> exists d, disp = Some d /\ in_interval dmin dmax d) ->
+    exists d' c' mask', gstep cv disp mask = POk d' c' mask'.
+  Proof.
+    intros F R. destruct (pixel_total K KW me m dmin dmax s Hs cv disp mask F R) as (d1 & c1 & k1 & E1).
+    pose proof (gstep_eq cv disp mask) as H. unfold step in H. rewrite E1 in H.
+    destruct (pres_eq_ok _ _ _ _ H) as (d' & c' & E & _). exists d', c', k1. exact E.
+  Qed.
+
+  Lemma gen_pixel_bits cv disp mask d' c' mask' :
+    gstep cv disp mask = POk d' c' mask' -> (mask' = mask \/ mask' = Z.lor mask bit3).
+  Proof.
+    intro E. destruct (pres_eq_ret _ _ _ _ _ (gstep_eq cv disp mask) E) as (d1 & c1 & E1 & _).
+    exact (pixel_bits K KW me m dmin dmax s _ _ _ _ _ _ E1).
+  Qed.
+
+  Lemma gen_pixel_bit3_iff cv d mask c1 :
+    is_valid K mask -> cv_fits dmin dmax s cv -> in_interval dmin dmax d ->
+    let k := sample_index dmin s d in
+    cost_at cv k = Some c1 ->
+    (must_stop (kind_of m) dmin dmax s cv d c1 ->
+       exists d' c', gstep cv (Some d) mask = POk (Some d') (Some c') (Z.lor mask bit3) /\ d' == d /\ c' == c1)
+    /\ (~ must_stop (kind_of m) dmin dmax s cv d c1 ->
+        exists c0 c2 sh co d' c', cost_at cv (k - 1) = Some c0 /\ cost_at cv (k + 1) = Some c2
+          /\ is_extremum (kind_of m) c0 c1 c2
+          /\ gmethod K me (Some c0) (Some c1) (Some c2) (Some d) m = FRet (Some sh) (Some co) 0
+          /\ gstep cv (Some d) mask = POk (Some d') (Some c') mask
+          /\ d' == d + sh / inject_Z s /\ c' == co).
+  Proof.
+    intros V F I k EC.
+    destruct (pixel_bit3_iff K KW me m dmin dmax s Hs cv d mask c1 V F I EC) as [A B].
+    pose proof (gstep_eq cv (Some d) mask) as H. unfold step in H. split; intro MS.
+    - destruct (A MS) as (d1 & c1' & E1 & Ed & Ec). rewrite E1 in H.
+      destruct (pres_eq_ok _ _ _ _ H) as (od & oc & E & Xd & Xc).
+      destruct (oq_eq_some_r _ _ Xd) as (d' & -> & Yd). destruct (oq_eq_some_r _ _ Xc) as (c' & -> & Yc).
+      exists d', c'. split; [exact E|]. split; [rewrite Yd; exact Ed | rewrite Yc; exact Ec].
+    - destruct (B MS) as (c0 & c2 & sh & co & E0 & E2 & EX & RM & E1). fold k in E0, E2. rewrite E1 in H.
+      destruct (pres_eq_ok _ _ _ _ H) as (od & oc & E & Xd & Xc).
+      destruct (oq_eq_some_r _ _ Xd) as (d' & -> & Yd). destruct (oq_eq_some_r _ _ Xc) as (c' & -> & Yc).
+      pose proof (gen_method_eq K me m (Some c0) c1 (Some c2) (Some d)) as HM. rewrite RM in HM.
+      destruct (fres_eq_ok _ _ _ _ HM) as (sh' & co' & EM & Es & Eco).
+      exists c0, c2, sh', co', d', c'.
+      split; [exact E0|]. split; [exact E2|]. split; [exact EX|]. split; [exact EM|]. split; [exact E|]. split.
+      + rewrite Yd, Qred_correct, Es. reflexivity.
+      + rewrite Yc, Qred_correct, Eco. reflexivity.
+  Qed.
+
+  Lemma gen_pixel_moved_costed cv d mask d' c' mask' :
+    is_valid K mask -> cv_fits dmin dmax s cv -> in_interval dmin dmax d ->
+    gstep cv (Some d) mask = POk (Some d') c' mask' -> ~ d' == d ->
+    exists c0 c1 c2, cost_at cv (sample_index dmin s d - 1) = Some c0
+                     /\ cost_at cv (sample_index dmin s d) = Some c1
+                     /\ cost_at cv (sample_index dmin s d + 1) = Some c2
+                     /\ is_extremum (kind_of m) c0 c1 c2
+                     /\ ~ near_end dmin dmax s d
+                     /\ mask' = mask.
+  Proof.
+    intros V F I E N.
+    destruct (pres_eq_ret _ _ _ _ _ (gstep_eq cv (Some d) mask) E) as (od & c1' & E1 & Xd & _).
+    destruct od as [d1|]; [|contradiction]. cbn in Xd.
+    apply (pixel_moved_costed K KW me m dmin dmax s Hs cv d mask d1 c1' mask' V F I E1).
+    intro Y. apply N. rewrite Xd. exact Y.
+  Qed.
+End GenPixel.
